@@ -29,7 +29,8 @@ class C15World(World):
     RULE = ("each run: one model spec from the zoo (emphasis on constructor-time randomness: random permutations, random masks "
             "and degrees, random spline/CDF parameters, Householder/LU/QR/SVD initialisers, MADE mixtures, flows with random "
             "masks/permutations) built under seed s0 (float32, or converted to float64 right after construction), a seeded "
-            "history over {train, eval, training-mode pass, parameter update, probe call} and crash+restart faults that rebuild the spec under another seed and load the "
+            "history over {train, eval, training-mode pass (in 40 % of the runs possibly cut short by an injected interruption, i.e. a "
+            "crash point inside an operation), parameter update, probe call} and crash+restart faults that rebuild the spec under another seed and load the "
             "checkpoint through torch.save/torch.load; all incarnations then continue in lock-step. After every op all "
             "state_dicts are bit-identical and every probe (forward, inverse, log_prob, transform_to_noise, sample with "
             "equalised RNG) returns bit-identical tensors. Non-trivial iff >= 1 restart preceded by >= 1 state-changing op "
@@ -45,7 +46,8 @@ class C15World(World):
               "checkpoint corruption is out of scope (torch.load would fail before any nflows code runs)"]
     EXPECTED_PROBES = ["restart_before_data_dependent_init", "restart_after_data_dependent_init", "restart_after_parameter_update",
                        "second_generation_restart", "restart_in_float64", "fresh_constructions_differ", "sample_compared",
-                       "inverse_compared", "training_mode_compared", "real_subprocess_restart_compared"]
+                       "inverse_compared", "training_mode_compared", "real_subprocess_restart_compared",
+                       "restart_from_state_torn_by_interrupted_training_pass"]
 
     # ------------------------------------------------------------ config
     @classmethod
@@ -62,6 +64,8 @@ class C15World(World):
         # the real process boundary: at the end of the run the newest checkpoint is shipped to a fresh
         # interpreter (other PYTHONHASHSEED, other seed) and probed there
         cfg["xproc"] = rng.chance(0.01 if tier == "quick" else 0.05)
+        cfg["faulty"] = rng.chance(0.4)
+        cfg["opcode"] = bool(tier == "thorough" and rng.chance(0.3))
         cfg["weights"]["restart"] = max(cfg["weights"]["restart"], 1)
         cfg["weights"]["probe"] = max(cfg["weights"]["probe"], 1)
         return cfg
@@ -77,8 +81,8 @@ class C15World(World):
         out = []
         if op.get("rows", 1) > 1:
             out.append(dict(op, rows=1))
-        if op.get("op") == "probe" and op.get("fn") not in ("forward", "log_prob"):
-            pass
+        if op.get("interrupt"):
+            o = dict(op); o.pop("interrupt"); out.append(o)
         return out
 
     # ------------------------------------------------------------ set-up
@@ -95,6 +99,7 @@ class C15World(World):
         if self.dtype64:
             self.inc[0].double()
         self.updated = False
+        self.torn = False
         self.has_init = [m for m in self.inc[0].modules() if type(m).__name__ == "ActNorm"]
 
     def abstract(self):
@@ -123,6 +128,10 @@ class C15World(World):
             fns = e.calls() if kind == "probe" else [c for c in e.calls() if c in ("forward", "log_prob")]
             op.update(fn=sched.pick(fns), x=data.seed30(), rows=data.pick([1, 2, 3, 4]), rng=data.pick([1, 2, 3]), n=data.pick([1, 2, 3]),
                       scale=data.pick([1.0, 1.0, 3.0]))
+            if self.cfg.get("faulty") and kind == "trainpass" and streams["fault"].chance(0.3):
+                import math
+                hi = 3000 * (8 if self.cfg.get("opcode") else 1)
+                op["interrupt"] = max(1, int(math.exp(streams["fault"].random() * math.log(hi))))
         elif kind == "update":
             op.update(x=data.seed30(), rows=3, lr=data.pick([0.01, 0.1]), rng=data.pick([1, 2]))
         elif kind == "restart":
@@ -160,10 +169,17 @@ class C15World(World):
     def _all(self, op, log, grad="no_grad"):
         """Run the same call on every incarnation; compare bitwise."""
         results = []
+        k = op.get("interrupt") if self.cfg.get("faulty") else None
         for root in self.inc:
             with grad_ctx(grad):
                 try:
-                    res = self._invoke(root, op, self._dtype())
+                    fired, seen, res = core.call_interruptible(lambda: self._invoke(root, op, self._dtype()), k,
+                                                               opcode=self.cfg.get("opcode", False))
+                    if fired:
+                        # a crash point INSIDE an operation: whatever state the interruption left behind is what a
+                        # checkpoint taken now would hold; every incarnation must have been torn identically
+                        results.append(("interrupted", seen))
+                        continue
                     outs = res if isinstance(res, tuple) else (res,)
                     results.append(("ok", b"".join(core.tbytes(o) for o in outs)))
                 except Exception as ex:   # noqa: BLE001 - whether a call is valid is not C15's business, only that all incarnations agree
@@ -175,6 +191,10 @@ class C15World(World):
                 what = "raised %s vs %s" % (first[1], r[1]) if "raised" in (first[0], r[0]) else "different bits"
                 raise Violation("reloaded_model_differs", "%s on incarnation %d of %d (%s mode): %s" % (
                     op["fn"], i, len(self.inc), "training" if self.inc[0].training else "evaluation", what))
+        if k:
+            (self.faults if first[0] == "interrupted" else self.faults_missed)["interrupt_in_call"] += 1
+            if first[0] == "interrupted":
+                self.torn = True
         if len(self.inc) > 1:
             self.compared_after_restart += 1
             if first[0] == "ok":
@@ -185,7 +205,7 @@ class C15World(World):
                 if self.inc[0].training:
                     self.probes["training_mode_compared"] += 1
         log.add(first[0], first[1])
-        return first[0] == "ok"
+        return first[0] in ("ok", "interrupted")
 
     # ------------------------------------------------------------ step
     def step(self, op, log):
@@ -288,6 +308,8 @@ class C15World(World):
             self.probes["second_generation_restart"] += 1
         if self.dtype64:
             self.probes["restart_in_float64"] += 1
+        if self.torn:
+            self.probes["restart_from_state_torn_by_interrupted_training_pass"] += 1
         log.add("restarted")
 
     def finish(self, log):
